@@ -7,6 +7,7 @@ package c06
 import (
 	"fmt"
 	"image/color"
+	"math"
 	"math/rand"
 	"sort"
 	"strings"
@@ -927,6 +928,121 @@ type meshInfo struct {
 	mesh *modeling.Mesh
 	desc gen.MeshDesc
 	id   int // identity of the pointer
+	// nonFinite describes injected NaN / ±Inf values: "" or "<attr>/<arity>:<kind>"
+	nonFinite string
+	// jsonReject: the unchanged writer cannot express this mesh's min/max in JSON (±Inf anywhere, NaN in a
+	// VEC4 attribute: WriteVector4 has no NaN guard) and returns the encoding/json error
+	jsonReject bool
+}
+
+var nanPayloads = []float64{math.NaN(), math.Float64frombits(0x7ff8000000000123), math.Float64frombits(0xfff8000000000001)}
+
+// poison injects non-finite components into one float attribute of the mesh (never JOINTS, which is
+// stored as bytes). Must be called before the mesh pointer is handed out.
+func (g *sg) poison(mi *meshInfo) {
+	m := *mi.mesh
+	n := mi.desc.Verts
+	if n == 0 {
+		return
+	}
+	type cand struct {
+		name  string
+		arity int
+	}
+	var cs []cand
+	for _, a := range m.Float2Attributes() {
+		cs = append(cs, cand{a, 2})
+	}
+	for _, a := range m.Float3Attributes() {
+		cs = append(cs, cand{a, 3})
+	}
+	for _, a := range m.Float4Attributes() {
+		if a != modeling.JointAttribute {
+			cs = append(cs, cand{a, 4})
+		}
+	}
+	if len(cs) == 0 {
+		return
+	}
+	c := cs[g.r.Intn(len(cs))]
+	kind := []string{"nan", "nan", "nan", "nan-many", "nan-all", "inf", "nan+inf"}[g.r.Intn(7)]
+	bad := func() float64 {
+		switch kind {
+		case "inf":
+			return math.Inf(1 - 2*g.r.Intn(2))
+		case "nan+inf":
+			if g.r.Intn(2) == 0 {
+				return math.Inf(1 - 2*g.r.Intn(2))
+			}
+		}
+		return nanPayloads[g.r.Intn(len(nanPayloads))]
+	}
+	hit := map[int]bool{g.r.Intn(n): true}
+	switch kind {
+	case "nan-many", "nan+inf":
+		for i := 0; i < 1+n/3; i++ {
+			hit[g.r.Intn(n)] = true
+		}
+	case "nan-all":
+		for i := 0; i < n; i++ {
+			hit[i] = true
+		}
+	}
+	switch c.arity {
+	case 2:
+		it := m.Float2Attribute(c.name)
+		a := make([]vector2.Float64, n)
+		for i := range a {
+			a[i] = it.At(i)
+			if hit[i] {
+				if g.r.Intn(2) == 0 {
+					a[i] = a[i].SetX(bad())
+				} else {
+					a[i] = a[i].SetY(bad())
+				}
+			}
+		}
+		m = m.SetFloat2Attribute(c.name, a)
+	case 3:
+		it := m.Float3Attribute(c.name)
+		a := make([]vector3.Float64, n)
+		for i := range a {
+			a[i] = it.At(i)
+			if hit[i] {
+				switch g.r.Intn(3) {
+				case 0:
+					a[i] = a[i].SetX(bad())
+				case 1:
+					a[i] = a[i].SetY(bad())
+				default:
+					a[i] = a[i].SetZ(bad())
+				}
+			}
+		}
+		m = m.SetFloat3Attribute(c.name, a)
+	case 4:
+		it := m.Float4Attribute(c.name)
+		a := make([]vector4.Float64, n)
+		for i := range a {
+			a[i] = it.At(i)
+			if hit[i] {
+				switch g.r.Intn(4) {
+				case 0:
+					a[i] = a[i].SetX(bad())
+				case 1:
+					a[i] = a[i].SetY(bad())
+				case 2:
+					a[i] = a[i].SetZ(bad())
+				default:
+					a[i] = a[i].SetW(bad())
+				}
+			}
+		}
+		m = m.SetFloat4Attribute(c.name, a)
+	}
+	mi.mesh = &m
+	mi.nonFinite = fmt.Sprintf("VEC%d:%s", c.arity, kind)
+	mi.jsonReject = c.arity == 4 || strings.Contains(kind, "inf")
 }
 
 func (g *sg) mesh(maxVerts int, allowEmpty bool) meshInfo {
@@ -1041,6 +1157,11 @@ type sceneInfo struct {
 	g      *sg
 	// invalid alpha cutoff present: the writer is documented to reject the scene
 	expectReject bool
+	// non-finite data injected into written models ("" when none) and whether the unchanged writer
+	// answers with an encoding/json error (±Inf in min/max, NaN through the unguarded VEC4 path)
+	nonFinite  []string
+	jsonReject bool
+	instBad    map[int]string // model → kind of non-finite instance transform
 }
 
 func (g *sg) v3() vector3.Float64 {
@@ -1110,6 +1231,12 @@ func (g *sg) finish(sc gltf.PolyformScene, pool []meshInfo) *sceneInfo {
 			panic("harness: model mesh not in pool")
 		}
 		info := modelInfo{meshID: id, skipped: mo.Mesh.PrimitiveCount() == 0, inst: len(mo.GpuInstances)}
+		if !info.skipped {
+			if mi := si.meshes[id]; mi.nonFinite != "" {
+				si.nonFinite = append(si.nonFinite, mi.nonFinite)
+				si.jsonReject = si.jsonReject || mi.jsonReject
+			}
+		}
 		if !info.skipped && mo.Material != nil && mo.Material.AlphaCutoff != nil &&
 			(mo.Material.AlphaMode == nil || *mo.Material.AlphaMode != gltf.MaterialAlphaMode_MASK) {
 			si.expectReject = true
@@ -1131,6 +1258,14 @@ func randomScene(r *rand.Rand, big []int, thorough bool) *sceneInfo {
 	for i := 0; i < nMesh; i++ {
 		pool = append(pool, g.mesh(maxV, true))
 	}
+	// ≈5 % of the scenes carry non-finite data: in one attribute of one mesh, or in one instance transform
+	nonFiniteMode := 0
+	if r.Intn(20) == 0 {
+		nonFiniteMode = 1 + r.Intn(3) // 1,2: mesh attribute; 3: instance translation / scale
+		if nonFiniteMode < 3 {
+			g.poison(&pool[r.Intn(len(pool))])
+		}
+	}
 	for _, n := range big {
 		pool = append(pool, g.bigMesh(n))
 	}
@@ -1138,7 +1273,9 @@ func randomScene(r *rand.Rand, big []int, thorough bool) *sceneInfo {
 	if r.Intn(4) == 0 {
 		src := pool[r.Intn(len(pool))]
 		cp := *src.mesh
-		pool = append(pool, meshInfo{mesh: &cp, desc: src.desc})
+		cpi := src
+		cpi.mesh = &cp
+		pool = append(pool, cpi)
 	}
 	// material pool
 	var mats []*gltf.PolyformMaterial
@@ -1215,7 +1352,39 @@ func randomScene(r *rand.Rand, big []int, thorough bool) *sceneInfo {
 	for k := r.Intn(8) - 4; k > 0; k-- {
 		sc.Lights = append(sc.Lights, g.light())
 	}
-	return g.finish(sc, pool)
+	instBad := map[int]string{}
+	if nonFiniteMode == 3 && len(sc.Models) > 0 {
+		k := r.Intn(len(sc.Models))
+		mo := &sc.Models[k]
+		if len(mo.GpuInstances) == 0 {
+			mo.GpuInstances = []trs.TRS{trs.New(g.v3(), g.quat(), vector3.New(1., 2., 0.5)), trs.New(g.v3(), g.quat(), vector3.New(1., 1., 1.))}
+		}
+		j := r.Intn(len(mo.GpuInstances))
+		old := mo.GpuInstances[j]
+		bad := nanPayloads[r.Intn(len(nanPayloads))]
+		kind := "nan"
+		if r.Intn(5) == 0 {
+			bad, kind = math.Inf(1-2*r.Intn(2)), "inf"
+		}
+		insts := append([]trs.TRS(nil), mo.GpuInstances...)
+		if r.Intn(2) == 0 {
+			insts[j] = trs.New(old.Position().SetY(bad), old.Rotation(), old.Scale())
+			kind = "instance-translation:" + kind
+		} else {
+			insts[j] = trs.New(old.Position(), old.Rotation(), old.Scale().SetX(bad))
+			kind = "instance-scale:" + kind
+		}
+		mo.GpuInstances = insts
+		instBad[k] = kind
+	}
+	si := g.finish(sc, pool)
+	for k, kind := range instBad {
+		if !si.models[k].skipped {
+			si.nonFinite = append(si.nonFinite, kind)
+			si.jsonReject = si.jsonReject || strings.HasSuffix(kind, "inf")
+		}
+	}
+	return si
 }
 
 // applicable reports whether kind can be applied to base without preparing it (base is already in use).
